@@ -2,12 +2,12 @@
    Part 1: the three regenerated battery kernels obey the consistency law
            charge' - charge = rate * V / 1000 * (T / 60).
    Part 2: the regenerated scalar kernels (R instance KR) satisfy the interface laws.
-   Part 3: for ANY kernel record satisfying the laws, every run of the ledger state machine keeps
-           the ledger invariants (induction over the operation sequence).
+   Part 3: R is an instance of the field-generic invariant proof (Proofs/LedgerField.v: for ANY kernel
+           record satisfying the laws, every run keeps the ledger invariants; induction over the ops).
    Part 4: instantiation with KR. *)
 From Coq Require Import ZArith Reals Lra List Bool Lia Permutation.
 From ACN Require Import Base.Num Base.NumR Base.ListX Gen.Evse_R Gen.EvseZ_Z Gen.Battery_R Gen.Ledger_R
-                        Model.Ledger Model.LedgerR.
+                        Model.Ledger Model.LedgerR Proofs.LedgerField.
 Import ListNotations.
 Open Scope R_scope.
 
@@ -99,7 +99,7 @@ Proof.
 Qed.
 
 (* ------------------------------------------------------------------------------------------ *)
-(* small list facts                                                                            *)
+(* R is an instance of the field-generic development (Proofs/LedgerField.v)                     *)
 (* ------------------------------------------------------------------------------------------ *)
 Lemma Rsum_app a b : Rsum (a ++ b) = Rsum a + Rsum b.
 Proof.
@@ -111,541 +111,24 @@ Proof.
   induction 1 as [|x l l' _ IH|x y l|l l' l'' _ IH1 _ IH2]; unfold Rsum in *; cbn [fold_right] in *; lra.
 Qed.
 
-Lemma Forall2_rev {A C} (P : A -> C -> Prop) a b : Forall2 P a b -> Forall2 P (rev a) (rev b).
+Lemma RO_ring : ring_theory (o0 RO) (o1 RO) (oadd RO) (omul RO) (osub RO) (fopp R RO) (@eq R).
+Proof. constructor; intros; unfold fopp; cbn [o0 o1 oadd omul osub RO]; ring. Qed.
+
+Lemma RO_div : forall a b, odiv RO a b = omul RO a (/ b).
+Proof. reflexivity. Qed.
+
+(* the R-flavoured law record (Model/LedgerR.v) is the field-generic one *)
+Lemma kern_laws_to_F {B} (K : kern R B) bwf : kern_laws K bwf -> kern_laws_F R RO K bwf.
 Proof.
-  induction 1; cbn; [constructor|]. apply Forall2_app; auto.
+  intros [H1 H2 H3 H4 H5 H6 H7]. constructor; auto.
 Qed.
 
-Lemma Forall2_len {A C} (P : A -> C -> Prop) a b : Forall2 P a b -> length a = length b.
-Proof. induction 1; cbn; auto. Qed.
-
-Lemma Forall2_nth_error_ex {A C} (P : A -> C -> Prop) a b n y :
-  Forall2 P a b -> nth_error b n = Some y -> exists x, nth_error a n = Some x /\ P x y.
+Lemma column_energy_power T (net : list (stn (F:=R))) : forall col,
+  column_energy RO T net col = column_power net col * (T / 60).
 Proof.
-  intro H; revert n; induction H; intros [|n] Hn; cbn in *; try discriminate.
-  - inversion Hn; subst. eauto.
-  - eauto.
+  induction net as [|s net IH]; intros [|r col]; cbn [column_energy column_power]; try (cbn; lra).
+  rewrite IH. unfold energy_of. cbn [oadd omul odiv oofZ RO]. lra.
 Qed.
-
-Lemma Forall2_nth_error {A C} (P : A -> C -> Prop) a b n x y :
-  Forall2 P a b -> nth_error a n = Some x -> nth_error b n = Some y -> P x y.
-Proof.
-  intros H Ha Hb. destruct (Forall2_nth_error_ex P a b n y H Hb) as [x' [Hx' HP]]. congruence.
-Qed.
-
-(* ------------------------------------------------------------------------------------------ *)
-(* Part 3: generic ledger invariants                                                           *)
-(* ------------------------------------------------------------------------------------------ *)
-Section Generic.
-  Variable B : Type.
-  Variable K : kern R B.
-  Variable bwf : B -> Prop.
-  Hypothesis L_set_pilot_ok : forall ev p v t,
-    k_set_pilot K ev p v t true = Some (match ev with None => None | Some _ => Some (p, v, t) end).
-  Hypothesis L_set_pilot_bad : forall ev p v t, k_set_pilot K ev p v t false = None.
-  Hypothesis L_ev_charge : forall e p v t r, k_ev_charge K e p v t r = (r, e + r * v / 1000 * (t / 60), r).
-  Hypothesis L_bstep : forall b p v t n r b', bwf b -> k_bstep K b p v t n = Some (r, b') ->
-    bwf b' /\ k_bcharge K b' - k_bcharge K b = r * v / 1000 * (t / 60).
-  Hypothesis L_rate_elt : forall o d, k_rate_elt K o d = match o with Some _ => d | None => 0 end.
-  Hypothesis L_peak : forall a b, k_peak K a b = Rmax a b.
-  Hypothesis L_peak_init : k_peak_init K = 0.
-
-  Variable T : R.
-
-  Notation ev := (@Ledger.ev R B).
-  Notation op := (@Ledger.op R B).
-  Notation state := (@Ledger.state R B).
-  Notation stn := (@Ledger.stn R).
-
-  Definition conn (l : list (option ev)) : list ev :=
-    flat_map (fun o => match o with Some e => [e] | None => [] end) l.
-  Definition tag (e : ev) : Z * R := (e_sid e, k_bcharge K (e_batt e) - e_energy e).
-  Definition ebwf (e : ev) : Prop := bwf (e_batt e).
-  Definition esum (x : Z) (l : list ev) : R :=
-    Rsum (map (fun e => if Z.eqb (e_sid e) x then e_energy e else 0) l).
-  Definition etot (l : list ev) : R := Rsum (map e_energy l).
-  Definition init_tags (ops : list op) : list (Z * R) :=
-    flat_map (fun o => match o with Plugin _ sid b => [(sid, k_bcharge K b)] | _ => [] end) ops.
-  Lemma connected_conn (st : state) : connected st = conn (evs st).
-  Proof. reflexivity. Qed.
-
-  Lemma esum_app x a b : esum x (a ++ b) = esum x a + esum x b.
-  Proof. unfold esum. rewrite map_app, Rsum_app. reflexivity. Qed.
-  Lemma esum_perm x a b : Permutation a b -> esum x a = esum x b.
-  Proof. intro H. unfold esum. apply Rsum_perm. now apply Permutation_map. Qed.
-  Lemma etot_app a b : etot (a ++ b) = etot a + etot b.
-  Proof. unfold etot. rewrite map_app, Rsum_app. reflexivity. Qed.
-  Lemma etot_perm a b : Permutation a b -> etot a = etot b.
-  Proof. intro H. unfold etot. apply Rsum_perm. now apply Permutation_map. Qed.
-
-  (* with distinct session ids the per-session sum picks out the one EV of that session *)
-  Lemma esum_cons x a l :
-    esum x (a :: l) = (if Z.eqb (e_sid a) x then e_energy a else 0) + esum x l.
-  Proof. reflexivity. Qed.
-
-  Lemma esum_notin x l : ~ In x (map e_sid l) -> esum x l = 0.
-  Proof.
-    induction l as [|c l IH]; intro Hn; [reflexivity|]. rewrite esum_cons.
-    destruct (Z.eqb_spec (e_sid c) x) as [Heq|Hne].
-    - exfalso. apply Hn. left. exact Heq.
-    - rewrite IH; [lra|]. intro Hc. apply Hn. right. exact Hc.
-  Qed.
-
-  Lemma esum_unique l : NoDup (map e_sid l) -> forall e, In e l -> esum (e_sid e) l = e_energy e.
-  Proof.
-    induction l as [|a l IH]; intros Hnd e Hin; [destruct Hin|].
-    cbn in Hnd. inversion Hnd as [|? ? Hnotin Hnd']; subst.
-    rewrite esum_cons. destruct Hin as [->|Hin].
-    - rewrite Z.eqb_refl, esum_notin by exact Hnotin. lra.
-    - destruct (Z.eqb_spec (e_sid a) (e_sid e)) as [Heq|Hne].
-      + exfalso. apply Hnotin. rewrite Heq. now apply in_map.
-      + rewrite IH by auto. lra.
-  Qed.
-
-  (* ---------------- one EV.charge ---------------- *)
-  Lemma charge_ev_spec e p v t n e' :
-    ebwf e -> charge_ev K e p v t n = Some e' ->
-    e_sid e' = e_sid e /\ ebwf e' /\ tag e' = tag e /\
-    e_energy e' = e_energy e + e_rate e' * v / 1000 * (t / 60).
-  Proof.
-    unfold charge_ev, ebwf, tag. intros Hb.
-    destruct (k_bstep K (e_batt e) p v t n) as [[r b']|] eqn:E; [|discriminate].
-    rewrite L_ev_charge. intro H; inversion H; subst; clear H. cbn.
-    destruct (L_bstep _ _ _ _ _ _ _ Hb E) as [Hb' Hd].
-    repeat split; auto. f_equal. lra.
-  Qed.
-
-  Definition obwf (o : option ev) : Prop := match o with Some e => ebwf e | None => True end.
-
-  Lemma set_pilot_one_spec s o p n o' :
-    obwf o -> set_pilot_one K T s o p n = Some o' ->
-    match o, o' with
-    | None, None => True
-    | Some e, Some e' =>
-        e_sid e' = e_sid e /\ ebwf e' /\ tag e' = tag e /\
-        e_energy e' = e_energy e + e_rate e' * s_volt s / 1000 * (T / 60)
-    | _, _ => False
-    end.
-  Proof.
-    unfold set_pilot_one. intros Hb.
-    destruct (s_valid s p).
-    - rewrite L_set_pilot_ok. destruct o as [e|]; cbn.
-      + destruct (charge_ev K e p (s_volt s) T n) as [e'|] eqn:E; cbn; [|discriminate].
-        intro H; inversion H; subst; clear H. eapply charge_ev_spec; eauto.
-      + intro H; inversion H; subst. exact I.
-    - rewrite L_set_pilot_bad. discriminate.
-  Qed.
-
-  (* ---------------- one period: update_pilots ---------------- *)
-  Lemma current_rates_cons (o : option ev) l :
-    current_rates RO K (o :: l)
-    = k_rate_elt K (option_map e_rate o) (match o with Some e => e_rate e | None => 0 end) :: current_rates RO K l.
-  Proof. reflexivity. Qed.
-  Lemma period_energy_cons (s : stn) net r col o occ x :
-    period_energy RO T (s :: net) (r :: col) (o :: occ) x
-    = (if connected_as o x then r * s_volt s / 1000 * (T / 60) else 0) + period_energy RO T net col occ x.
-  Proof. reflexivity. Qed.
-  Lemma column_power_cons (s : stn) net r col :
-    column_power (s :: net) (r :: col) = s_volt s * r / 1000 + column_power net col.
-  Proof. reflexivity. Qed.
-  Lemma esum_one x (e : ev) : esum x [e] = if Z.eqb (e_sid e) x then e_energy e else 0.
-  Proof. unfold esum; cbn. destruct (Z.eqb (e_sid e) x); lra. Qed.
-  Lemma etot_one (e : ev) : etot [e] = e_energy e.
-  Proof. unfold etot; cbn. lra. Qed.
-  Definition col_energy (net : list stn) (col : list R) : R := column_power net col * (T / 60).
-
-  Lemma update_pilots_spec net : forall l ps ns l',
-    Forall obwf l -> update_pilots RO K T net l ps ns = Some l' ->
-    length l = length net /\ length l' = length net /\
-    Forall obwf l' /\
-    map tag (conn l') = map tag (conn l) /\
-    map (option_map e_sid) l' = map (option_map e_sid) l /\
-    (forall x, esum x (conn l') = esum x (conn l)
-               + period_energy RO T net (current_rates RO K l') (map (option_map e_sid) l') x) /\
-    etot (conn l') = etot (conn l) + col_energy net (current_rates RO K l').
-  Proof.
-    induction net as [|s net IH]; intros l ps ns l' Hb Hup.
-    - destruct l; cbn [update_pilots] in Hup; [|discriminate]. inversion Hup; subst.
-      cbn. unfold col_energy, etot, esum. cbn. repeat split; auto; intros; lra.
-    - destruct l as [|o l]; cbn [update_pilots] in Hup; [discriminate|].
-      destruct ps as [|p ps]; [discriminate|].
-      destruct (set_pilot_one K T s o p (hd (o0 RO, o0 RO) ns)) as [o'|] eqn:E1; [|discriminate].
-      destruct (update_pilots RO K T net l ps (tl ns)) as [l2|] eqn:E2; cbn [option_map] in Hup; [|discriminate].
-      inversion Hup; subst; clear Hup.
-      inversion Hb as [|? ? Hbo Hbl]; subst.
-      destruct (IH _ _ _ _ Hbl E2) as (Hl & Hl2 & Hb2 & Htag & Hsid & Hes & Het).
-      pose proof (set_pilot_one_spec _ _ _ _ _ Hbo E1) as H1.
-      destruct o as [e|], o' as [e'|]; try contradiction.
-      + destruct H1 as (Hs & Hbe & Ht & Hen).
-        cbn [length conn flat_map map option_map app].
-        fold (conn l2). fold (conn l).
-        repeat split.
-        * cbn; lia.
-        * cbn; lia.
-        * constructor; auto.
-        * cbn. fold (conn l2) (conn l). rewrite Ht, Htag. reflexivity.
-        * rewrite Hs, Hsid. reflexivity.
-        * intro x. change (e' :: conn l2) with ([e'] ++ conn l2). change (e :: conn l) with ([e] ++ conn l).
-          rewrite !esum_app, Hes, !esum_one, Hs.
-          rewrite current_rates_cons. cbn [map option_map]. rewrite period_energy_cons, L_rate_elt.
-          cbn [connected_as]. rewrite ?Hs.
-          destruct (Z.eqb (e_sid e) x); rewrite ?Hen; lra.
-        * change (e' :: conn l2) with ([e'] ++ conn l2). change (e :: conn l) with ([e] ++ conn l).
-          rewrite !etot_app, Het, !etot_one. unfold col_energy.
-          rewrite current_rates_cons, column_power_cons, L_rate_elt. cbn [option_map]. rewrite Hen. lra.
-      + cbn [length conn flat_map map option_map app].
-        fold (conn l2). fold (conn l).
-        repeat split.
-        * cbn; lia.
-        * cbn; lia.
-        * constructor; auto.
-        * exact Htag.
-        * rewrite Hsid. reflexivity.
-        * intro x. rewrite Hes.
-          rewrite current_rates_cons. cbn [map option_map]. rewrite period_energy_cons.
-          cbn [connected_as]. lra.
-        * rewrite Het. unfold col_energy.
-          rewrite current_rates_cons, column_power_cons, L_rate_elt. cbn [option_map]. lra.
-  Qed.
-
-  (* recorded rate of a vacant station is 0, whatever the state *)
-  Lemma current_rates_vacant (l : list (option ev)) :
-    Forall2 (fun r o => o = None -> r = 0) (current_rates RO K l) (map (option_map e_sid) l).
-  Proof.
-    induction l as [|o l IH]; cbn; constructor; auto.
-    rewrite L_rate_elt. destruct o; cbn; [discriminate|reflexivity].
-  Qed.
-
-  Lemma current_rates_length (l : list (option ev)) : length (current_rates RO K l) = length l.
-  Proof. unfold current_rates. apply map_length. Qed.
-
-  (* ---------------- plugin / unplug ---------------- *)
-  Lemma plugin_at_spec net : forall l station sid b l',
-    plugin_at RO net l station sid b = Some l' ->
-    length l' = length l /\ Permutation (conn l') (new_ev RO sid b :: conn l).
-  Proof.
-    induction net as [|s net IH]; intros l station sid b l' H; [destruct l; discriminate|].
-    destruct l as [|o l]; [discriminate|]. cbn in H.
-    destruct (Z.eqb (s_id s) station).
-    - destruct o as [e|]; cbn in H; [discriminate|]. inversion H; subst. cbn. split; auto.
-    - destruct (plugin_at RO net l station sid b) as [l2|] eqn:E; cbn in H; [|discriminate].
-      inversion H; subst. destruct (IH _ _ _ _ _ E) as [Hlen Hperm]. split; [cbn; lia|].
-      destruct o as [e|]; cbn; fold (conn l2) (conn l).
-      + rewrite Hperm. apply perm_swap.
-      + exact Hperm.
-  Qed.
-
-  Lemma unplug_at_spec net : forall l station sid l' d,
-    unplug_at net l station sid = Some (l', d) ->
-    length l' = length l /\
-    Permutation (conn l) (match d with Some e => e :: conn l' | None => conn l' end).
-  Proof.
-    induction net as [|s net IH]; intros l station sid l' d H; [destruct l; discriminate|].
-    destruct l as [|o l]; [discriminate|]. cbn in H.
-    destruct (Z.eqb (s_id s) station).
-    - destruct o as [e|].
-      + destruct (Z.eqb sid (e_sid e)); inversion H; subst; cbn; split; auto.
-      + inversion H; subst; cbn; split; auto.
-    - destruct (unplug_at net l station sid) as [[l2 d2]|] eqn:E; [|discriminate].
-      inversion H; subst. destruct (IH _ _ _ _ _ E) as [Hlen Hperm]. split; [cbn; lia|].
-      destruct o as [e|]; cbn; fold (conn l2) (conn l).
-      + destruct d as [e0|].
-        * rewrite Hperm. apply perm_swap.
-        * now constructor.
-      + exact Hperm.
-  Qed.
-
-  (* ---------------- induction over the operation sequence ---------------- *)
-  Lemma run_ind (P : list op -> state -> Prop) net :
-    (forall done st o st', P done st -> apply_op RO K T net st o = Some st' -> P (done ++ [o]) st') ->
-    forall ops done st st', P done st -> run RO K T net st ops = Some st' -> P (done ++ ops) st'.
-  Proof.
-    intros Hstep ops; induction ops as [|o r IH]; intros done st st' HP Hrun; cbn in Hrun.
-    - inversion Hrun; subst. rewrite app_nil_r. exact HP.
-    - destruct (apply_op RO K T net st o) as [st1|] eqn:E; [|discriminate].
-      replace (done ++ o :: r) with ((done ++ [o]) ++ r) by (rewrite <- app_assoc; reflexivity).
-      eapply IH; eauto.
-  Qed.
-
-  Lemma init_tags_app a b : init_tags (a ++ b) = init_tags a ++ init_tags b.
-  Proof. unfold init_tags. apply flat_map_app. Qed.
-  Lemma plugged_sids_app (a b : list op) : plugged_sids (a ++ b) = plugged_sids a ++ plugged_sids b.
-  Proof. unfold plugged_sids. apply flat_map_app. Qed.
-  Lemma plugged_batts_app (a b : list op) : plugged_batts (a ++ b) = plugged_batts a ++ plugged_batts b.
-  Proof. unfold plugged_batts. apply flat_map_app. Qed.
-  Lemma n_steps_app (a b : list op) : n_steps (a ++ b) = (n_steps a + n_steps b)%nat.
-  Proof. unfold n_steps. rewrite filter_app, app_length. reflexivity. Qed.
-
-  (* the invariant that needs no assumption on session ids *)
-  Record Inv (net : list stn) (done : list op) (st : state) : Prop := {
-    inv_len : length (evs st) = length net;
-    inv_bwf : Forall bwf (plugged_batts done) -> Forall ebwf (all_evs st);
-    inv_tags : Forall bwf (plugged_batts done) -> incl (map tag (all_evs st)) (init_tags done);
-    inv_sids : incl (map e_sid (all_evs st)) (plugged_sids done);
-    inv_nodup : NoDup (plugged_sids done) -> NoDup (map e_sid (all_evs st));
-    inv_E : Forall bwf (plugged_batts done) ->
-            forall x, esum x (all_evs st) = ledger_sum RO T net (cols st) (occs st) x;
-    inv_tot : Forall bwf (plugged_batts done) ->
-              etot (all_evs st) = Rsum (map (col_energy net) (cols st));
-    inv_vac : Forall2 (Forall2 (fun r o => o = None -> r = 0)) (cols st) (occs st);
-    inv_peak : peak st = peak_of RO (cols st);
-    inv_shape : Forall (fun c => length c = length net) (cols st)
-                /\ Forall (fun c => length c = length net) (occs st)
-                /\ length (cols st) = n_steps done
-  }.
-
-  Lemma all_evs_unfold (st : state) : all_evs st = conn (evs st) ++ hist st.
-  Proof. reflexivity. Qed.
-
-  Lemma Inv_init net : Inv net [] (init_state K net).
-  Proof.
-    assert (Hc : conn (map (fun _ : stn => @None ev) net) = []) by (induction net; cbn; auto).
-    constructor; unfold all_evs, connected, init_state; cbn [evs cols occs peak hist].
-    - apply map_length.
-    - intros _. fold (conn (map (fun _ : stn => @None ev) net)). rewrite Hc. constructor.
-    - intros _. fold (conn (map (fun _ : stn => @None ev) net)). rewrite Hc. intros x [].
-    - fold (conn (map (fun _ : stn => @None ev) net)). rewrite Hc. intros x [].
-    - intros _. fold (conn (map (fun _ : stn => @None ev) net)). rewrite Hc. constructor.
-    - intros _ x. fold (conn (map (fun _ : stn => @None ev) net)). rewrite Hc. reflexivity.
-    - intros _. fold (conn (map (fun _ : stn => @None ev) net)). rewrite Hc. reflexivity.
-    - constructor.
-    - cbn. apply L_peak_init.
-    - repeat split; constructor.
-  Qed.
-
-  Lemma Forall_app_l {A} (P : A -> Prop) a b : Forall P (a ++ b) -> Forall P a.
-  Proof. intro H. apply Forall_app in H. tauto. Qed.
-  Lemma Forall_app_r {A} (P : A -> Prop) a b : Forall P (a ++ b) -> Forall P b.
-  Proof. intro H. apply Forall_app in H. tauto. Qed.
-
-  Lemma NoDup_app_l {A} (a b : list A) : NoDup (a ++ b) -> NoDup a.
-  Proof.
-    induction a as [|x a IH]; cbn; intro H; [constructor|].
-    inversion H; subst. constructor; auto. intro Hin. apply H2. apply in_or_app. now left.
-  Qed.
-
-  Lemma Inv_step net done st o st' :
-    Inv net done st -> apply_op RO K T net st o = Some st' -> Inv net (done ++ [o]) st'.
-  Proof.
-    intros I Hop. destruct I as [Ilen Ibwf Itags Isids Ind IE Itot Ivac Ipeak Ishape].
-    destruct o as [station sid b | station sid | ps ns]; cbn in Hop.
-    - (* Plugin *)
-      destruct (plugin_at RO net (evs st) station sid b) as [l'|] eqn:E; [|discriminate].
-      inversion Hop; subst; clear Hop.
-      destruct (plugin_at_spec _ _ _ _ _ _ E) as [Hlen Hperm].
-      assert (Hall : Permutation (all_evs {| evs := l'; cols := cols st; occs := occs st; peak := peak st; hist := hist st |})
-                                 (new_ev RO sid b :: all_evs st)).
-      { rewrite !all_evs_unfold. cbn [evs hist]. rewrite Hperm. reflexivity. }
-      constructor; cbn [evs cols occs peak hist];
-        rewrite ?plugged_batts_app, ?plugged_sids_app, ?init_tags_app, ?n_steps_app;
-        cbn [plugged_batts plugged_sids init_tags n_steps flat_map filter app length].
-      + lia.
-      + intro Hb. eapply Permutation_Forall; [symmetry; exact Hall|].
-        constructor.
-        * unfold ebwf, new_ev; cbn. apply Forall_app_r in Hb. now inversion Hb.
-        * apply Ibwf. eapply Forall_app_l; eauto.
-      + intros Hb t Ht. apply (Permutation_in _ (Permutation_map tag Hall)) in Ht.
-        apply in_or_app. destruct Ht as [Ht|Ht].
-        * right. left. rewrite <- Ht. unfold tag, new_ev; cbn. f_equal. lra.
-        * left. apply Itags; auto. eapply Forall_app_l; eauto.
-      + intros x Hx. apply (Permutation_in _ (Permutation_map e_sid Hall)) in Hx.
-        apply in_or_app. destruct Hx as [Hx|Hx]; [right; left; exact Hx|left; now apply Isids].
-      + intro Hnd. eapply Permutation_NoDup; [symmetry; apply (Permutation_map e_sid Hall)|].
-        cbn [map new_ev e_sid]. constructor.
-        * intro Hin. apply Isids in Hin.
-          apply NoDup_remove_2 in Hnd. rewrite app_nil_r in Hnd. contradiction.
-        * apply Ind. eapply NoDup_app_l; eauto.
-      + intros Hb x. rewrite (esum_perm _ _ _ Hall).
-        change (new_ev RO sid b :: all_evs st) with ([new_ev RO sid b] ++ all_evs st).
-        rewrite esum_app, IE by (eapply Forall_app_l; eauto).
-        unfold esum; cbn. destruct (Z.eqb sid x); lra.
-      + intros Hb. rewrite (etot_perm _ _ Hall).
-        change (new_ev RO sid b :: all_evs st) with ([new_ev RO sid b] ++ all_evs st).
-        rewrite etot_app, Itot by (eapply Forall_app_l; eauto). unfold etot; cbn. lra.
-      + exact Ivac.
-      + exact Ipeak.
-      + destruct Ishape as (S1 & S2 & S3). repeat split; auto. lia.
-    - (* Unplug *)
-      destruct (unplug_at net (evs st) station sid) as [[l' d]|] eqn:E; [|discriminate].
-      inversion Hop; subst; clear Hop.
-      destruct (unplug_at_spec _ _ _ _ _ _ E) as [Hlen Hperm].
-      assert (Hall : Permutation (all_evs st)
-                       (all_evs {| evs := l'; cols := cols st; occs := occs st; peak := peak st;
-                                   hist := match d with Some e => e :: hist st | None => hist st end |})).
-      { rewrite !all_evs_unfold. cbn [evs hist]. rewrite Hperm. destruct d as [e|].
-        - cbn. apply Permutation_middle.
-        - reflexivity. }
-      constructor; cbn [evs cols occs peak hist];
-        rewrite ?plugged_batts_app, ?plugged_sids_app, ?init_tags_app, ?n_steps_app;
-        cbn [plugged_batts plugged_sids init_tags n_steps flat_map filter app length];
-        rewrite ?app_nil_r.
-      + lia.
-      + intro Hb. eapply Permutation_Forall; [exact Hall|]. now apply Ibwf.
-      + intros Hb t Ht. apply (Permutation_in _ (Permutation_sym (Permutation_map tag Hall))) in Ht.
-        now apply Itags.
-      + intros x Hx. apply (Permutation_in _ (Permutation_sym (Permutation_map e_sid Hall))) in Hx.
-        now apply Isids.
-      + intro Hnd. eapply Permutation_NoDup; [apply (Permutation_map e_sid Hall)|]. now apply Ind.
-      + intros Hb x. rewrite <- (esum_perm _ _ _ Hall). now apply IE.
-      + intros Hb. rewrite <- (etot_perm _ _ Hall). now apply Itot.
-      + exact Ivac.
-      + exact Ipeak.
-      + destruct Ishape as (S1 & S2 & S3). repeat split; auto. lia.
-    - (* Step *)
-      destruct (update_pilots RO K T net (evs st) ps ns) as [l'|] eqn:E; [|discriminate].
-      inversion Hop; subst; clear Hop.
-      assert (Hspec : Forall bwf (plugged_batts done) ->
-                length (evs st) = length net /\ length l' = length net /\
-                Forall obwf l' /\
-                map tag (conn l') = map tag (conn (evs st)) /\
-                map (option_map e_sid) l' = map (option_map e_sid) (evs st) /\
-                (forall x, esum x (conn l') = esum x (conn (evs st))
-                   + period_energy RO T net (current_rates RO K l') (map (option_map e_sid) l') x) /\
-                etot (conn l') = etot (conn (evs st)) + col_energy net (current_rates RO K l')).
-      { intro Hb. apply (update_pilots_spec net _ ps ns); auto.
-        specialize (Ibwf Hb). rewrite all_evs_unfold in Ibwf. apply Forall_app_l in Ibwf.
-        clear - Ibwf. induction (evs st) as [|o l IH]; constructor.
-        - destruct o; cbn in *; auto. now inversion Ibwf.
-        - apply IH. destruct o; cbn in Ibwf; auto. now inversion Ibwf. }
-      (* facts that do not need the battery law: lengths and session ids *)
-      assert (Hlen' : length l' = length net /\ map (option_map e_sid) l' = map (option_map e_sid) (evs st)).
-      { clear - E L_set_pilot_ok L_set_pilot_bad L_ev_charge. revert ps ns l' E.
-        generalize (evs st) as l. induction net as [|s net IH]; intros l ps ns l' E.
-        - destruct l; cbn [update_pilots] in E; [|discriminate]. inversion E; subst. auto.
-        - destruct l as [|o l]; cbn [update_pilots] in E; [discriminate|].
-          destruct ps as [|p ps]; [discriminate|].
-          destruct (set_pilot_one K T s o p (hd (o0 RO, o0 RO) ns)) as [o'|] eqn:E1; [|discriminate].
-          destruct (update_pilots RO K T net l ps (tl ns)) as [l2|] eqn:E2; cbn [option_map] in E; [|discriminate].
-          inversion E; subst. destruct (IH _ _ _ _ E2) as [H1 H2]. cbn. split; [lia|]. rewrite H2. f_equal.
-          unfold set_pilot_one in E1. destruct (s_valid s p).
-          + rewrite L_set_pilot_ok in E1. destruct o as [e|]; cbn [option_map] in E1.
-            * unfold charge_ev in E1. destruct (k_bstep K (e_batt e) p (s_volt s) T _) as [[r b']|]; cbn [option_map] in E1; [|discriminate].
-              rewrite L_ev_charge in E1. inversion E1; subst. reflexivity.
-            * inversion E1; subst. reflexivity.
-          + rewrite L_set_pilot_bad in E1. discriminate. }
-      destruct Hlen' as [Hl' Hsid'].
-      assert (Hconn_sid : map e_sid (conn l') = map e_sid (conn (evs st))).
-      { clear - Hsid'. revert l' Hsid'. generalize (evs st) as l.
-        induction l as [|o l IH]; intros [|o' l'] H; cbn in H; try discriminate; auto.
-        inversion H as [[H1 H2]]. specialize (IH _ H2).
-        destruct o, o'; cbn in H1; try discriminate; cbn [conn flat_map app map];
-          fold (conn l') (conn l); rewrite IH; congruence. }
-      unfold store. constructor; cbn [evs cols occs peak hist];
-        rewrite ?plugged_batts_app, ?plugged_sids_app, ?init_tags_app, ?n_steps_app;
-        cbn [plugged_batts plugged_sids init_tags n_steps flat_map filter app length];
-        rewrite ?app_nil_r.
-      + exact Hl'.
-      + intro Hb. destruct (Hspec Hb) as (_ & _ & Hob & _).
-        rewrite all_evs_unfold. cbn [evs hist]. apply Forall_app. split.
-        * clear - Hob. induction l' as [|o l IH]; cbn; [constructor|].
-          inversion Hob; subst. destruct o; cbn; auto.
-        * specialize (Ibwf Hb). rewrite all_evs_unfold in Ibwf. eapply Forall_app_r; eauto.
-      + intros Hb t Ht. destruct (Hspec Hb) as (_ & _ & _ & Htag & _).
-        rewrite all_evs_unfold in Ht. cbn [evs hist] in Ht. rewrite map_app, Htag in Ht.
-        apply Itags; auto. rewrite all_evs_unfold, map_app. exact Ht.
-      + intros x Hx. rewrite all_evs_unfold in Hx. cbn [evs hist] in Hx. rewrite map_app, Hconn_sid in Hx.
-        apply Isids. rewrite all_evs_unfold, map_app. exact Hx.
-      + intro Hnd. specialize (Ind Hnd). rewrite all_evs_unfold in *. cbn [evs hist].
-        rewrite map_app, Hconn_sid. rewrite map_app in Ind. exact Ind.
-      + intros Hb x. destruct (Hspec Hb) as (_ & _ & _ & _ & _ & Hes & _).
-        rewrite all_evs_unfold. cbn [evs hist ledger_sum]. rewrite esum_app, Hes.
-        specialize (IE Hb x). rewrite all_evs_unfold, esum_app in IE.
-        cbn [oadd RO]. lra.
-      + intros Hb. destruct (Hspec Hb) as (_ & _ & _ & _ & _ & _ & Het).
-        rewrite all_evs_unfold. cbn [evs hist map Rsum fold_right]. rewrite etot_app, Het.
-        specialize (Itot Hb). rewrite all_evs_unfold, etot_app in Itot.
-        fold (Rsum (map (col_energy net) (cols st))). lra.
-      + constructor; auto. apply current_rates_vacant.
-      + rewrite L_peak, Ipeak. reflexivity.
-      + destruct Ishape as (S1 & S2 & S3). repeat split.
-        * constructor; auto. rewrite current_rates_length. exact Hl'.
-        * constructor; auto. rewrite map_length. exact Hl'.
-        * cbn. lia.
-  Qed.
-
-  Lemma Inv_run net ops st :
-    simulate RO K T net ops = Some st -> Inv net ops st.
-  Proof.
-    intro H. change ops with ([] ++ ops).
-    eapply (run_ind (Inv net) net); [apply Inv_step| apply Inv_init | exact H].
-  Qed.
-
-  (* init_charge is the tag of the (unique) Plugin of the session *)
-  Lemma init_tags_sid ops x c : In (x, c) (init_tags ops) -> In x (plugged_sids ops).
-  Proof.
-    induction ops as [|o r IH]; cbn; [tauto|].
-    destruct o; cbn; auto. intros [H|H]; [left; congruence|right; auto].
-  Qed.
-
-  Lemma init_charge_of_tags ops x c :
-    NoDup (plugged_sids ops) -> In (x, c) (init_tags ops) -> init_charge K ops x = Some c.
-  Proof.
-    induction ops as [|o r IH]; cbn; [tauto|].
-    destruct o as [station sid b| |]; cbn; auto.
-    intros Hnd [H|H].
-    - inversion H; subst. now rewrite Z.eqb_refl.
-    - inversion Hnd; subst. destruct (Z.eqb_spec sid x) as [->|Hne].
-      + exfalso. apply H2. eapply init_tags_sid; eauto.
-      + auto.
-  Qed.
-
-  (* ---------------- the four statements, for any law-abiding kernel record ---------------- *)
-  Theorem ledger_generic net ops st :
-    NoDup (plugged_sids ops) -> Forall bwf (plugged_batts ops) ->
-    simulate RO K T net ops = Some st ->
-    forall e, In e (all_evs st) ->
-      e_energy e = ledger_sum RO T net (cols st) (occs st) (e_sid e)
-      /\ exists c0, init_charge K ops (e_sid e) = Some c0 /\ e_energy e = k_bcharge K (e_batt e) - c0.
-  Proof.
-    intros Hnd Hb Hrun e He. pose proof (Inv_run _ _ _ Hrun) as I. split.
-    - rewrite <- (inv_E _ _ _ I Hb). symmetry. apply esum_unique; auto. apply (inv_nodup _ _ _ I Hnd).
-    - exists (k_bcharge K (e_batt e) - e_energy e). split; [|lra].
-      apply init_charge_of_tags; auto. apply (inv_tags _ _ _ I Hb).
-      change (e_sid e, k_bcharge K (e_batt e) - e_energy e) with (tag e). now apply in_map.
-  Qed.
-
-  Theorem vacant_zero_generic net ops st :
-    simulate RO K T net ops = Some st ->
-    forall t col occ,
-      nth_error (rates_by_period st) t = Some col -> nth_error (occupancy_by_period st) t = Some occ ->
-      length col = length net /\ length occ = length net /\
-      forall i, nth_error occ i = Some None -> nth_error col i = Some 0.
-  Proof.
-    intros Hrun t col occ Hc Ho. pose proof (Inv_run _ _ _ Hrun) as I.
-    destruct (inv_shape _ _ _ I) as (S1 & S2 & _).
-    unfold rates_by_period, occupancy_by_period in *.
-    assert (Hcin : In col (cols st)) by (apply in_rev; eapply nth_error_In; eauto).
-    assert (Hoin : In occ (occs st)) by (apply in_rev; eapply nth_error_In; eauto).
-    rewrite Forall_forall in S1, S2. repeat split; auto.
-    intros i Hi.
-    pose proof (Forall2_rev _ _ _ (inv_vac _ _ _ I)) as Hv.
-    pose proof (Forall2_nth_error _ _ _ _ _ _ Hv Hc Ho) as Hv2.
-    destruct (Forall2_nth_error_ex _ _ _ _ _ Hv2 Hi) as [r [Hr Hz]].
-    rewrite Hr, Hz; auto.
-  Qed.
-
-  Theorem shape_generic net ops st :
-    simulate RO K T net ops = Some st ->
-    length (rates_by_period st) = n_steps ops /\ length (occupancy_by_period st) = n_steps ops
-    /\ length (evs st) = length net.
-  Proof.
-    intro Hrun. pose proof (Inv_run _ _ _ Hrun) as I.
-    destruct (inv_shape _ _ _ I) as (_ & _ & S3).
-    unfold rates_by_period, occupancy_by_period. rewrite !rev_length.
-    pose proof (inv_vac _ _ _ I) as Hv. apply Forall2_len in Hv.
-    repeat split; try lia. apply (inv_len _ _ _ I).
-  Qed.
-
-  Theorem peak_generic net ops st :
-    simulate RO K T net ops = Some st -> peak st = peak_of RO (cols st).
-  Proof. intro Hrun. apply (inv_peak _ _ _ (Inv_run _ _ _ Hrun)). Qed.
-
-  Theorem total_generic net ops st :
-    Forall bwf (plugged_batts ops) ->
-    simulate RO K T net ops = Some st ->
-    Rsum (map e_energy (all_evs st)) = Rsum (map (fun col => column_power net col * (T / 60)) (cols st)).
-  Proof. intros Hb Hrun. apply (inv_tot _ _ _ (Inv_run _ _ _ Hrun) Hb). Qed.
-End Generic.
 
 (* ------------------------------------------------------------------------------------------ *)
 (* characterisation of the accumulated peak                                                    *)
@@ -691,17 +174,43 @@ Section Packaged.
   Variable K : kern R B.
   Variable bwf : B -> Prop.
   Hypothesis L : kern_laws K bwf.
+  Let LF := kern_laws_to_F K bwf L.
 
-  Definition ledger_any := ledger_generic B K bwf (law_set_pilot_ok _ _ L) (law_set_pilot_bad _ _ L)
-    (law_ev_charge _ _ L) (law_bstep _ _ L) (law_rate_elt _ _ L) (law_peak _ _ L) (law_peak_init _ _ L).
-  Definition vacant_zero_any := vacant_zero_generic B K bwf (law_set_pilot_ok _ _ L) (law_set_pilot_bad _ _ L)
-    (law_ev_charge _ _ L) (law_bstep _ _ L) (law_rate_elt _ _ L) (law_peak _ _ L) (law_peak_init _ _ L).
-  Definition shape_any := shape_generic B K bwf (law_set_pilot_ok _ _ L) (law_set_pilot_bad _ _ L)
-    (law_ev_charge _ _ L) (law_bstep _ _ L) (law_rate_elt _ _ L) (law_peak _ _ L) (law_peak_init _ _ L).
-  Definition peak_any := peak_generic B K bwf (law_set_pilot_ok _ _ L) (law_set_pilot_bad _ _ L)
-    (law_ev_charge _ _ L) (law_bstep _ _ L) (law_rate_elt _ _ L) (law_peak _ _ L) (law_peak_init _ _ L).
-  Definition total_any := total_generic B K bwf (law_set_pilot_ok _ _ L) (law_set_pilot_bad _ _ L)
-    (law_ev_charge _ _ L) (law_bstep _ _ L) (law_rate_elt _ _ L) (law_peak _ _ L) (law_peak_init _ _ L).
+  Lemma ledger_any (T : R) net ops st :
+    NoDup (plugged_sids ops) -> Forall bwf (plugged_batts ops) ->
+    simulate RO K T net ops = Some st ->
+    forall e, In e (all_evs st) ->
+      e_energy e = ledger_sum RO T net (cols st) (occs st) (e_sid e)
+      /\ exists c0, init_charge K ops (e_sid e) = Some c0 /\ e_energy e = k_bcharge K (e_batt e) - c0.
+  Proof. exact (ledger_field R RO Rinv RO_ring RO_div B K bwf LF T net ops st). Qed.
+
+  Lemma vacant_zero_any (T : R) net ops st :
+    simulate RO K T net ops = Some st ->
+    forall t col occ,
+      nth_error (rates_by_period st) t = Some col -> nth_error (occupancy_by_period st) t = Some occ ->
+      length col = length net /\ length occ = length net /\
+      forall i, nth_error occ i = Some None -> nth_error col i = Some 0.
+  Proof. exact (vacant_zero_field R RO Rinv RO_ring RO_div B K bwf LF T net ops st). Qed.
+
+  Lemma shape_any (T : R) net ops st :
+    simulate RO K T net ops = Some st ->
+    length (rates_by_period st) = n_steps ops /\ length (occupancy_by_period st) = n_steps ops
+    /\ length (evs st) = length net.
+  Proof. exact (shape_field R RO Rinv RO_ring RO_div B K bwf LF T net ops st). Qed.
+
+  Lemma peak_any (T : R) net ops st :
+    simulate RO K T net ops = Some st -> peak st = peak_of RO (cols st).
+  Proof. exact (peak_field R RO Rinv RO_ring RO_div B K bwf LF T net ops st). Qed.
+
+  Lemma total_any (T : R) net ops st :
+    Forall bwf (plugged_batts ops) ->
+    simulate RO K T net ops = Some st ->
+    Rsum (map e_energy (all_evs st)) = Rsum (map (fun col => column_power net col * (T / 60)) (cols st)).
+  Proof.
+    intros Hb Hrun.
+    pose proof (total_field R RO Rinv RO_ring RO_div B K bwf LF T net ops st Hb Hrun) as H.
+    change (fsum RO) with Rsum in H. rewrite H. f_equal. apply map_ext. intro col. apply column_energy_power.
+  Qed.
 End Packaged.
 
 (* the reported peak: max(0, max over periods of the recorded aggregate current) *)
